@@ -8,6 +8,7 @@ import vlib
 import syslib
 import looplib
 import clilib
+import srvlib
 
 
 RESYNC_LOSS = 4
@@ -139,9 +140,11 @@ def loop_glue(rep, ctx):
 
 
 def check(rep):
-    ctx = vlib.prepare(rep, harnesses={'sys': syslib.SYS, 'sysreal': syslib.SYS_REAL, 'loopsim': looplib.LOOPSIM, 'cli': clilib.CLI}, sanitize=False, model='SYS')
+    ctx = vlib.prepare(rep, harnesses={'sys': syslib.SYS, 'sysreal': syslib.SYS_REAL, 'loopsim': looplib.LOOPSIM, 'cli': clilib.CLI, 'srv': srvlib.SRV}, sanitize=False, model='SYS')
     loop_oracle(rep, ctx)
     loop_glue(rep, ctx)
+    if 'srv' in ctx.exe:
+        srvlib.loop_glue(rep, ctx, ctx.exe['srv'], 120 if rep.tier == 'quick' else 2000, 'c02srvloop')
     nh = 160 if rep.tier == 'quick' else 2500
     hs, gens = syslib.gen_clean(rep.seed, nh, 80, 12, tag='c02')
     rep.cov['rule'] = ('random configurations; per schedule an optional fault prefix (loss, duplication, re-ordering, relay re-sends, ticks), all '
